@@ -211,6 +211,23 @@ func findCallsDeep(f *ssa.Function, pats ...string) []deepCall {
 	return out
 }
 
+// instrsDeep visits the instructions of f and of the single-caller helpers
+// it calls (pieces of f), three levels down.
+func instrsDeep(f *ssa.Function, fn func(ssa.Instruction)) {
+	var walk func(g *ssa.Function, depth int)
+	walk = func(g *ssa.Function, depth int) {
+		instrs(g, func(i ssa.Instruction) {
+			fn(i)
+			if ci, ok := i.(ssa.CallInstruction); ok && depth < 3 {
+				if callee := ci.Common().StaticCallee(); callee != nil && callee.Blocks != nil && singleCallSite[callee] == ci {
+					walk(callee, depth+1)
+				}
+			}
+		})
+	}
+	walk(f, 0)
+}
+
 // findCallsDeepAny is findCallsDeep with an arbitrary predicate.
 func findCallsDeepAny(f *ssa.Function, match func(g *ssa.Function, ci ssa.CallInstruction) bool) []deepCall {
 	var out []deepCall
